@@ -2,8 +2,11 @@
 
 use crate::framework::Family;
 
+pub mod c03_common;
 pub mod client_blocking;
+pub mod server_blocking;
 pub mod fleet_blocking;
+pub mod hostile;
 pub mod peers;
 pub mod registry_tree;
 pub mod stream_ctl;
@@ -16,6 +19,8 @@ pub fn all() -> &'static [Family] {
         v.extend(peers::families());
         v.extend(client_blocking::families());
         v.extend(fleet_blocking::families());
+        v.extend(server_blocking::families());
+        v.extend(hostile::families());
         v.extend(registry_tree::families());
         v
     })
